@@ -48,7 +48,8 @@ def gen(model, header_text):
         params = [x.strip() for x in mm.group(3).split(",")]
         # parameter types after `self`, normalised (drop the parameter name)
         ptypes = [re.sub(r"\s*\w+$", "", x).replace(" ", "") for x in params[1:]]
-        defined[mm.group(2)] = {"ret": mm.group(1).strip().replace(" ", ""), "params": ptypes}
+        defined[mm.group(2)] = {"ret": mm.group(1).strip().replace(" ", ""), "params": ptypes,
+                                "self": re.sub(r"\s*\w+$", "", params[0]).replace(" ", "") if params and params[0] else ""}
     c = []
     c.append('#include <stdio.h>\n#include <string.h>\n#include "processed.h"\n')
     c.append("static unsigned char SBUF[8] = {1,2,3,4,5,6,7,8};\nstatic int INST; static int INST2; static int CTXV; static int CBX;\n")
@@ -140,6 +141,15 @@ def gen(model, header_text):
 
             def sig_ok(nm):
                 return nm in defined and defined[nm]["params"] == want and (m["ret"] != "cont" or defined[nm]["ret"] == ("struct" + tname))
+            # The property asks for *a* callable wrapper, not for a naming convention: when the conventional name is
+            # absent, any inline function named after the method whose signature fits this object (self as void
+            # pointer or as this very object type) is tried, preferring names that mention the trait / the owner.
+            def self_ok(nm):
+                st = defined[nm]["self"]
+                return st in ("void*", "constvoid*") or st.replace("const", "").rstrip("*") == "struct" + tname
+            others = [nm for nm in defined if nm not in names and (nm == m["name"] or nm.endswith("_" + m["name"])) and sig_ok(nm) and self_ok(nm)]
+            others.sort(key=lambda nm: (0 if (tr.lower() + "_") in nm else 1, 0 if owner.lower() in nm else 1, len(nm), nm))
+            names = names + others
             name = next((nm for nm in names if sig_ok(nm)), next((nm for nm in names if nm in defined), names[0]))
             rec = {"ty": ti, "owner_kind": kind, "owner": owner, "tr": tr, "m": m["name"], "wrapper": name, "cont": cont, "ctx": ctx,
                    "kind": "drop" if m.get("is_drop") else ("consuming" if m["recv"] == "own" else "plain"), "present": name in defined,
